@@ -123,7 +123,8 @@ constexpr bool fits_ll(T x) // rint(x) is representable in long / long long (64 
     if constexpr (lim<T>::digits >= 64) {
         return mag_of(x) <= T(9223372036854775807LL);
     } else {
-        return mag_of(x) < pow2<T>(63);
+        constexpr T two63 = pow2<T>(63);
+        return mag_of(x) < two63;
     }
 }
 template <typename T>
@@ -163,14 +164,15 @@ constexpr bool muladd_fits(T x, T y, T z) // the exact x * y + z neither overflo
     } else {
         T const ax = mag_of(x);
         T const ay = mag_of(y);
-        T const lo = pow2<T>(8000);
-        T bound    = lim<T>::infinity();
+        constexpr T lo  = pow2<T>(8000); // evaluated once, not per table entry
+        constexpr T lo2 = pow2<T>(16000);
+        T bound         = lim<T>::infinity();
         if (ax <= T(1)) {
             bound = ay;
         } else if (ay <= T(1)) {
             bound = ax;
         } else if (ax <= lo && ay <= lo) {
-            bound = pow2<T>(16000);
+            bound = lo2;
         }
         if (!(bound <= lim<T>::max() / T(2) && mag_of(z) <= lim<T>::max() / T(2))) { return false; }
         // the product itself must not underflow either (w is computed in this very type)
@@ -179,7 +181,8 @@ constexpr bool muladd_fits(T x, T y, T z) // the exact x * y + z neither overflo
     // underflow: a tiny non-zero result raises FE_UNDERFLOW (not a constant expression, [library.c])
     if (w != 0.0L) { return mag_of(w) >= static_cast<long double>(lim<T>::min()) * 2.0L; }
     if (x == T(0) || y == T(0)) { return true; }
-    return mag_of(z) >= lim<T>::min() * pow2<T>(70); // w == 0 by cancellation: the exact result is 0 or far above the subnormals
+    constexpr T far = lim<T>::min() * pow2<T>(70);
+    return mag_of(z) >= far; // w == 0 by cancellation: the exact result is 0 or far above the subnormals
 }
 
 // ---- exact set -------------------------------------------------------------------------
